@@ -310,6 +310,8 @@ func (p *specParser) postfix() (*SExpr, error) {
 				e = &SExpr{Op: "now", Args: args}
 			} else if e.S == "entry" && len(args) == 1 {
 				e = &SExpr{Op: "entry", Args: args}
+			} else if e.S == "iter" && len(args) == 1 {
+				e = &SExpr{Op: "iter", Args: args}
 			} else {
 				e = &SExpr{Op: "call", S: e.S, Args: args}
 			}
